@@ -240,6 +240,10 @@ func TestResignHealth(t *testing.T) {
 	if err := att.VerifyRequest(*r, x.blind3, x.client3, x.anon); err != nil {
 		t.Fatalf("harness health: attester refuses the re-signed honest request: %v", err)
 	}
+	// the harness-sealed request of the sequence target is one the issuer serves
+	if _, _, err := x.iss3seq.Evaluate(targetByName("type3.Issuer.Evaluate;AddOrigin;Evaluate").seeds[0]); err != nil {
+		t.Fatalf("harness health: issuer refuses the request sealed and signed by the harness: %v", err)
+	}
 	// with the key replaced by the harness key the signature must still pass: the failure has to come from decryption
 	if _, _, err := x.iss3.Evaluate(resign(x.req3, x.ownKey, true)); err == nil || strings.Contains(err.Error(), "signature") {
 		t.Fatalf("harness health: request re-signed under the harness key: got %v, expected a decryption failure", err)
